@@ -2,7 +2,7 @@
 import numpy as np
 from hypothesis import strategies as st
 
-from .. import specs
+from .. import reftdf, specs
 from ..core import Sub, build_machine, run_history
 
 PROP = {
@@ -306,6 +306,27 @@ class Interp:
                 b.channels = list(src.channels)
             self.stats["adoptions"] = self.stats.get("adoptions", 0) + 1
             changed = True
+        elif o == "share-item":
+            # an item OBJECT that sits in another instance is added to this one as well, under another channel / position: the item is
+            # shared by the caller's choice, what each block says about it (its channel there) is the block's own
+            if self.t not in ("emg", "platCal", "platData") or len(self.pool) < 2:
+                return
+            src = self.pool[(i + 1 + op.get("how", 0)) % len(self.pool)]
+            its = self.ad.items(src)
+            if src is b or not its:
+                return
+            it = its[op.get("how", 0) % len(its)]
+            if any(x is it for x in self.ad.items(b)):
+                return
+            used = {int(c) for c in (b._emgMap if self.t == "emg" else [c for c, _ in (b.platforms if self.t == "platCal" else list(b))])}
+            src_ch = {int(c) for c in (src._emgMap if self.t == "emg" else [c for c, _ in (src.platforms if self.t == "platCal" else list(src))])}
+            ch = next(c for c in range(500, 900) if c not in used and c not in src_ch)
+            if self.t == "emg":
+                b.addSignal(it, channel=ch)
+            else:
+                b.add_platform(it, channel=ch)
+            self.stats["shared-items"] = self.stats.get("shared-items", 0) + 1
+            changed = True
         elif o == "add":
             self.ad.add(b, self.ad.item())
             changed = True
@@ -336,7 +357,7 @@ def inits(t):
 def ops(t):
     i = st.integers(0, 20)
     create = st.fixed_dictionaries({"op": st.just("create"), "how": st.sampled_from(["empty", "empty", "with-items", "decode"]), "k": st.integers(1, 3), "src": i})
-    mut = st.fixed_dictionaries({"op": st.sampled_from(["add", "add", "remove", "edit", "adopt"]), "i": i, "how": i})
+    mut = st.fixed_dictionaries({"op": st.sampled_from(["add", "add", "remove", "edit", "adopt", "share-item"]), "i": i, "how": i})
     return st.one_of(create, mut, mut)
 
 
@@ -572,7 +593,7 @@ def deep_strategy(tier):
     import hypothesis.strategies as st_
 
     made = st_.fixed_dictionaries({"t": st_.sampled_from(ALL_TYPES), "origin": st_.sampled_from(["constructed", "constructed-empty", "decoded", "decoded-same-stream",
-                                                                                                 "decoded-same-stream", "decoded-roomy"]), "seed": st_.integers(1, 50)})
+                                                                                                 "decoded-same-stream", "decoded-roomy", "escaped-arrays"]), "seed": st_.integers(1, 50)})
     bare = st_.fixed_dictionaries({"t": st_.sampled_from(ALL_TYPES + ["event-item"]), "origin": st_.just("bare-constructor"), "seed": st_.integers(1, 50),
                                    "when": st_.sampled_from(["sibling-before", "sibling-after", "both"])})
     return st_.one_of(made, made, bare)
@@ -609,6 +630,52 @@ def run_deep(ctx, case):
         return b if origin == "constructed" else specs.lib_decode(t, fmt, specs.lib_write(b))[0]
 
     pristine_empty = specs.lib_write(_minimal_block(t))
+    if origin == "escaped-arrays":
+        # arrays taken out of a decoded block that is then dropped (x = tdf.emg[label].data): they are the caller's now. Used in ONE new,
+        # constructor-made block, they must not be refilled by whatever is decoded next.
+        import gc
+
+        from .c16 import make_track
+
+        if t not in specs.RLE_TYPES:
+            ctx.case(case, False, labels=[f"deep:{t}", origin, "not-applicable"])
+            return
+        n = 64 + case["seed"]
+        src = specs.build(specs._rle_block(t, n, [specs._rle_item(t, i, specs._vals(case["seed"] + i, n, specs.PER_FRAME[t])) for i in range(2)]))
+        data = specs.lib_write(src)
+        dec = specs.lib_decode(t, 1, data)[0]
+        its = list(dec) if t != "platData" else [p for _, p in dec]
+        if t in ("data3D", "emg"):
+            arrays = [(x.label, x.data) for x in its]
+        elif t == "force3D":
+            arrays = [(x.label, x.application_point, x.force, x.torque) for x in its]
+        else:
+            arrays = [(x.application_point, x.force, x.torque) for x in its]
+        del dec, its
+        gc.collect()
+        fresh = specs.build(specs._rle_block(t, n, []))
+        for a in arrays:
+            if t == "data3D":
+                from basictdf.tdfData3D import MarkerTrack
+                fresh.add_track(MarkerTrack(*a))
+            elif t == "emg":
+                from basictdf.tdfEMG import EMGTrack
+                fresh.addSignal(EMGTrack(*a))
+            elif t == "force3D":
+                from basictdf.tdfForce3D import ForceTorqueTrack
+                fresh.add_track(ForceTorqueTrack(*a))
+            else:
+                from basictdf.tdfForcePlatformsData import ForcePlatformData
+                fresh.add_platform(ForcePlatformData(*a))
+        before = specs.lib_write(fresh)
+        other = specs.same_shape_other_data(specs.extract(src))
+        later = [specs.lib_decode(t, 1, reftdf.encode(other))[0] for _ in range(3)]   # kept alive: they may now own recycled buffers
+        deep_mutate(later[0])
+        if specs.lib_write(fresh) != before:
+            ctx.fail(f"deep/{t}/escaped-array-refilled", f"{t}: arrays taken from a decoded block (the block itself dropped and collected) were used in a new block; decoding "
+                                                         f"other {t} data of the same shape afterwards changed what the new block encodes")
+        ctx.case(case, True, labels=[f"deep:{t}", origin])
+        return
     if origin in ("decoded-same-stream", "decoded-roomy"):
         # two decode calls on the SAME bytes: from one stream object rewound in between (a decoder that hands out views into the
         # stream's buffer would make the two blocks share memory), or from two streams over one bytes object
